@@ -29,8 +29,8 @@ fn ty_size(t: &str, x: Option<&str>) -> usize {
         "u8x3" | "np" => 3,
         "pubkey" => 32,
         "unit" | "phantom" | "phT" => 0,
-        "u16" | "na2" => 2,
-        "u32" => 4,
+        "u16" | "na2" | "tup16" => 2,
+        "u32" | "u16x2" => 4,
         "u64" | "pv64" => 8,
         "T" => ty_size(x.unwrap(), None),
         "Tx2" => 2 * ty_size(x.unwrap(), None),
@@ -39,7 +39,7 @@ fn ty_size(t: &str, x: Option<&str>) -> usize {
 }
 fn ty_align(t: &str) -> usize {
     match t {
-        "u16" | "na2" => 2,
+        "u16" | "na2" | "u16x2" | "tup16" => 2,
         "u32" => 4,
         "u64" => 8,
         _ => 1,
